@@ -868,9 +868,17 @@ def _memo_and_inputs(ctx, classes):
         fns = _self_closure(ix, cls, q)
         for f in fns:
             ctx.functions_analysed.add(f.key)
+            singles = single_assignments(f.node)
+
+            def container(e, singles=singles, f=f):
+                # `self._strings`, or a local alias of it (`memo = self._strings`)
+                return self_attr(resolve_alias(e, singles, f.params)) if isinstance(e, (ast.Name, ast.Attribute)) else None
             for n in walk_local(f.node):
-                if isinstance(n, ast.Subscript) and isinstance(n.ctx, ast.Store) and self_attr(n.value):
-                    memos.add(self_attr(n.value))
+                if isinstance(n, ast.Subscript) and isinstance(n.ctx, ast.Store) and container(n.value):
+                    memos.add(container(n.value))
+                elif isinstance(n, ast.Call) and isinstance(n.func, ast.Attribute) and n.args \
+                        and n.func.attr in ("setdefault", "__setitem__", "update") and container(n.func.value):
+                    memos.add(container(n.func.value))
         for f in fns:
             called = {id(c.func) for c in calls_in(f.node)}
             for n in walk_local(f.node):
